@@ -30,7 +30,7 @@ PLAN = {
     "thorough": {"shards": 8, "shard_timeout": 3600, "case_timeout": 90, "seq": 600000, "runs": 60000, "par": 6000, "max_case_timeouts": 10},
 }
 THRESHOLDS = {
-    "quick": {"individuals_checked": 5000, "sequential_calls": 600, "multi_objective_calls": 200, "representations": 300, "shared_problem_cases": 100, "runs": 70, "parallel_calls": 40, "parallel_individuals": 150, "set:completion_orders": 5, "parallel_with_evaluated_members": 10, "parallel_batches_with_duplicates": 8, "runs_with_selection_after_variation": 30, "multi_returns:reused-list": 50, "multi_returns:tuple": 50, "parallel_batches_of_never_mapped_individuals": 10, "parallel_never_mapped:dsge": 3, "problem_churn_cases": 25, "main_script_children": 6, "rounds_on_a_reused_problem_address": 20},
+    "quick": {"factory_made_abc_grammars_evaluated_in_parallel": 3, "individuals_checked": 5000, "sequential_calls": 600, "multi_objective_calls": 200, "representations": 300, "shared_problem_cases": 100, "runs": 70, "parallel_calls": 40, "parallel_individuals": 150, "set:completion_orders": 5, "parallel_with_evaluated_members": 10, "parallel_batches_with_duplicates": 8, "runs_with_selection_after_variation": 30, "multi_returns:reused-list": 50, "multi_returns:tuple": 50, "parallel_batches_of_never_mapped_individuals": 10, "parallel_never_mapped:dsge": 3, "problem_churn_cases": 25, "main_script_children": 6, "rounds_on_a_reused_problem_address": 20},
     "thorough": {"individuals_checked": 120000, "parallel_calls": 600, "set:completion_orders": 40},
 }
 
